@@ -282,9 +282,9 @@ class Gen:
                     fields += self.chunk([], names)
                     info["minlen"] += 1
                     continue
-                # a flag shared by one or two optional fields
+                # a flag shared by one to four optional fields, any mix of condition values
                 fl = self.fresh("f")
-                nopt = rng.choice([1, 1, 2])
+                nopt = rng.choice([1, 1, 2, 2, 3, 4])
                 hdr = [("%s: 1" % fl, 1)]
                 opts = []
                 for _ in range(nopt):
